@@ -15,6 +15,8 @@ import json, os, random, re, subprocess, sys, time
 V = os.path.dirname(os.path.dirname(os.path.abspath(__file__)))
 ENV = dict(os.environ, GOFLAGS="-mod=mod", GOPROXY="off", GOSUMDB="off", GOTOOLCHAIN="local")
 ENV.setdefault("VH_SCALE", "0.3")
+ENV.setdefault("VH_CASE_CPU", "20")
+ENV.setdefault("VH_SOLO_CPU", "30")
 
 PROPS = {
     "js/lex.go": ["C06", "C02", "C01"], "js/parse.go": ["C03", "C04", "C05", "C01", "C15"], "js/ast.go": ["C04", "C05", "C03", "C01"],
@@ -61,7 +63,7 @@ def candidates(lines):
         for pat, reps in SWAPS:
             for m in re.finditer(pat, code_ok):
                 for rep in reps:
-                    out.append((i, ln[:m.start()] + rep + ln[m.end():], "%s -> %s" % (m.group(0), rep)))
+                    out.append((i, ln[:m.start()] + rep + ln[m.end():], "%s -> %s @%d" % (m.group(0), rep, m.start())))
         if DELETABLE.match(code_ok) and "defer" not in code_ok:
             out.append((i, None, "delete statement"))
     return out
@@ -126,6 +128,9 @@ def main():
                 detail[p] = {"rc": rc, "first": first, "s": round(time.time() - t0, 1)}
                 if rc == 1:
                     caught_by.append(p)
+                    break
+                if rc == 2 and ("does not return within" in out or "HANG" in out):
+                    caught_by.append(p + "(hang: inconclusive)")
                     break
             rec = {"file": rel, "line": i + 1, "orig": lines[i].strip()[:160], "mutation": what, "caught_by": caught_by, "detail": detail}
             outf.write(json.dumps(rec) + "\n")
